@@ -853,8 +853,16 @@ func (u *Unit) step(st *State, in ssa.Instruction) bool {
 		fr.defers = append(fr.defers, Deferred{call: &x.Call, args: args, fnv: fnv, pos: x.Pos()})
 		advance()
 	case *ssa.Go:
-		// spawn: the goroutine body is a unit of its own; arguments are evaluated
-		st.evalCallOperands(&x.Call)
+		// spawn: the goroutine body is a unit of its own; arguments are evaluated. `before <callee>: assert` clauses of the
+		// spawning unit are proved at the spawn (they speak about the arguments the goroutine is started with)
+		_, gargs := st.evalCallOperands(&x.Call)
+		if callee := x.Call.StaticCallee(); callee != nil {
+			gkey := st.eng().ld.keyOf[callee]
+			if gkey == "" {
+				gkey = FuncKey(callee)
+			}
+			st.beforeAsserts(gkey, gargs, x.Pos())
+		}
 		advance()
 	case *ssa.Panic:
 		st.check("panic", "explicit panic: "+st.textAt(x.Pos(), "panic"), x.Pos(), TFalse)
@@ -1641,6 +1649,35 @@ func (st *State) sliceOp(x *ssa.Slice) Value {
 		arr := types.Unalias(t.Elem()).Underlying().(*types.Array)
 		p := st.asPointer(base)
 		if !(p.Kind == RObj && len(p.Path) == 0) {
+			if p.Kind == RObj && len(p.Path) >= 1 && !p.Path[0].IsIdx {
+				// a slice of an array embedded in a struct (x.f[:]): the array lives inside the field heap of f, a slice
+				// addresses element memory - the two views are not unified. Sound over-approximation: the slice gets an
+				// unknown backing array (it may alias anything; its contents are arbitrary), and from here on the field heap
+				// of f is "escaped": every read of it on this path yields arbitrary content, since a write through the slice
+				// may have changed it. What is still proved holds; the evidence lists the assumption-free abstraction.
+				name, _ := st.eng().fieldHeapName(p.Path[0].T, p.Path[0].Field)
+				if st.escaped == nil {
+					st.escaped = map[string]bool{}
+				} else {
+					m := make(map[string]bool, len(st.escaped)+1)
+					for k, v := range st.escaped {
+						m[k] = v
+					}
+					st.escaped = m
+				}
+				st.escaped[name] = true
+				st.eng().assumes["slice of an array embedded in a struct: contents arbitrary, the field's heap havocked at every later read (over-approximation): "+name] = true
+				n := IntLit(arr.Len())
+				if x.High != nil {
+					hi = st.val(x.High).Tm
+				} else {
+					hi = n
+				}
+				st.check("slice", txt, pos, And(Le(IntLit(0), lo), Le(lo, hi), Le(hi, n)))
+				ref := st.eng().fresh("embarr", SInt)
+				st.assume(Gt(ref, IntLit(0)))
+				return Value{T: x.Type(), Tm: MkSlice(ref, lo, Sub(hi, lo), Sub(n, lo))}
+			}
 			panic(engineErr("slicing an embedded array"))
 		}
 		n := IntLit(arr.Len())
